@@ -1,6 +1,7 @@
 (* Props/C09.v — property theorems only.  C09: simulated fluid temperatures equal the documented temporal superposition. *)
 From Coq Require Import ZArith QArith List.
 From GHE Require Import Base.QUtil Model.Superpos Proof.SuperposP.
+From GHE Require Import gen.Src Proof.HourlySeqP.
 Import ListNotations.
 Open Scope Q_scope.
 
@@ -40,6 +41,18 @@ Theorem C09_rejection_raises : forall s K q n, (1 <= n <= length q)%nat ->
   Tg s <= formula s K q n.
 Proof. exact rejection_raises. Qed.
 Print Assumptions C09_rejection_raises.
+
+(* the hourly method, on the expressions REGENERATED from GHE.simulate: for every horizon of m months and every year of 8760 loads the
+   sequence that is superposed has 730 m steps, step i carrying load (i mod 8760) of the year (the year repeated end to end and cut at the
+   end of the horizon) — so that the formula above is applied to the load sequence the property names *)
+Theorem C09_hourly_sequence_is_the_year_repeated : forall (year : list Q) (m : nat),
+  Z.of_nat (length year) = 8760%Z -> (1 <= m)%nat ->
+  let nh := hourly_n_hours (natQ m) in
+  let q := hourly_tile year (hourly_n_years nh) nh in
+  Z.of_nat (length q) = (730 * Z.of_nat m)%Z /\
+  forall i : nat, (Z.of_nat i < 730 * Z.of_nat m)%Z -> nth i q 0 = nth (Z.to_nat (Z.of_nat i mod 8760)) year 0.
+Proof. exact hourly_sequence_is_the_year_repeated. Qed.
+Print Assumptions C09_hourly_sequence_is_the_year_repeated.
 
 Example C09_nonvacuous :
   let s := {| nbh := 4; Hh := 100; two_pi_k := 12; Tg := 18; Rb := 1 # 5; mdot := 1 # 2; cp := 4000 |} in
